@@ -131,14 +131,16 @@ let predict (c : string) (obs : string) : string * string * bool =
       let h2gun = (gun = "http2") in
       let target_h2 = h2gun && mode <> "2" in
       let opts_s = next () in
+      (* r<0|1> in front: the gun option `redirect` *)
+      let (redirect, opts_s) =
+        if String.length opts_s > 2 && opts_s.[0] = 'r' then (opts_s.[1] = '1', String.sub opts_s 2 (String.length opts_s - 2)) else (false, opts_s) in
       let opts = { go_dump = (opts_s.[1] = '1'); go_trace = (opts_s.[3] = '1'); go_debug = (opts_s.[5] = '1');
                    go_answlog = (match String.sub opts_s 7 (String.length opts_s - 7) with
                                  | "-" -> None | "all" -> Some AnswAll | "warning" -> Some AnswWarning | "error" -> Some AnswError | _ -> Some AnswOther) } in
       let iters = num () in
       let n = num () in
-      let pp_codes = ref [] in
-      let wires = ref [] in
-      let steps = List.init n (fun _ ->
+      (* the steps as written: what the URI of step i answers (one hop of the target graph of Model/RobustRedirect.v) *)
+      let raw = Array.of_list (List.init n (fun i ->
         let beh = next () in
         let conn = conn_of (next ()) in
         let status = z_of_int (num ()) in
@@ -151,19 +153,51 @@ let predict (c : string) (obs : string) : string * string * bool =
           | ["chunksz"; _] -> Some { bw_announced = None; bw_arrives = z_of_int body_len; bw_clean_end = false }
           | _ -> None) in
         let bodyok = (match wire with Some w -> body_complete w | None -> bodyok_claimed) in
-        wires := !wires @ [wire];
         let tok = strn () in
         let pp = next () in
         let tmpl = next () in
         let pre = next () in
+        let resp = { rs_conn = (if refused then ConnRefused else conn); rs_status = status; rs_body_ok = bodyok; rs_h2 = target_h2 } in
+        let (lc, counted) = (match String.split_on_char ':' beh with
+          | ["redir"; _; k] when k <> "" ->
+              (match k.[0] with
+               | 's' | 'a' -> (LocStep (nat_of_int (int_of_string (String.sub k 1 (String.length k - 1)))), true)
+               | 'p' -> (LocStep (nat_of_int i), false)
+               | 'b' -> (LocBad, false) | 'd' -> (LocDead, false) | _ -> (LocNone, false))
+          | _ -> (LocNone, false)) in
+        (beh, resp, wire, body_f, tok, (pp, tmpl, pre), lc, counted))) in
+      let dflt_hop = { hp_resp = { rs_conn = (if refused then ConnRefused else ConnOk); rs_status = z_of_int 200; rs_body_ok = true; rs_h2 = target_h2 }; hp_loc = LocNone } in
+      let tgt (j : nat) : hop =
+        let j = int_of_nat j in
+        if j < n then (let (_, resp, _, _, _, _, lc, _) = raw.(j) in { hp_resp = resp; hp_loc = lc }) else dflt_hop in
+      let never_back = ref false in
+      let pp_codes = ref [] in
+      let wires = ref [] in
+      let dos = ref [] in
+      let steps = List.init n (fun i ->
+        let (_, own_resp, _, _, _, (pp, tmpl, pre), _, _) = raw.(i) in
+        (* Client.Do at the URI of step i: one round trip, or net/http's redirect loop with the default policy *)
+        let d = (match client_do redirect tgt (nat_of_int i) with
+          | Some d -> d
+          | None -> never_back := true; { dr_present = false; dr_resp = own_resp; dr_trace = [nat_of_int i] }) in
+        dos := !dos @ [d];
+        let resp = d.dr_resp in
+        (* the step whose response the gun finally holds (its body, X-Token and wire are what the postprocessors see) *)
+        let fin = if d.dr_present && resp.rs_conn = ConnOk then int_of_nat (last_step d (nat_of_int i)) else i in
+        let (wire, body_f, tok) = if fin < n then (let (_, _, w, b, t, _, _, _) = raw.(fin) in (w, b, t)) else (None, "6f6b", []) in
+        let wire = if d.dr_present && resp.rs_conn = ConnOk then wire else None in
+        wires := !wires @ [wire];
+        let status = resp.rs_status in
         (* the body bytes matter to the model only for assert/response *)
         let body = if pp.[0] = 'a' then expand_body body_f else [] in
         pp_codes := !pp_codes @ [pp];
-        let resp = { rs_conn = (if refused then ConnRefused else conn); rs_status = status; rs_body_ok = bodyok; rs_h2 = target_h2 } in
         let pps = (match String.split_on_char ':' pp with
           | ["-"] -> []
           | ["h"; ch] -> [ (match var_header_one (chain_of_text (string_of_bytes (bytes_of_hex ch))) tok with Done _ -> Done () | Failed -> Failed | Panicked -> Panicked) ]
-          | ["j"; b] | ["J"; b] -> [ var_jsonpath_process true [b = "1"] ]
+          | ["j"; b] | ["J"; b] ->
+              (* the generator's claim is about the step's own body; after a redirect the body is another step's *)
+              let b = if fin <> i then (if body_f = hx (bytes_of_string "{\"a\":{\"b\":\"v\"},\"items\":[1,2]}") then "1" else "0") else b in
+              [ var_jsonpath_process true [b = "1"] ]
           | ["x"; k] -> [ xpath_values true (if k = "number" then XNumber else XNodeSet) ]
           | ["a"; st; pat] -> [ assert_process { as_body = [bytes_of_hex pat]; as_headers = []; as_status = z_of_int (int_of_string st); as_size = None }
                                   { rv_status = status; rv_header = (fun _ -> []); rv_body = body } ]
@@ -185,21 +219,36 @@ let predict (c : string) (obs : string) : string * string * bool =
         | Some w ->
             if gun = "scenario" then (match shoot_step_wire mem s w with WStep o -> o <> shoot_step s | WStepCrash -> true)
             else (match base_shoot_wire mem base_c false s.si_resp w with WShot o -> o <> base_shoot base_c false s.si_resp | WCrash -> true)) steps !wires in
+      (* the Do-level step / shot ("response present" and "error" separate): by C19_redirect_gun_refines /
+         C19_redirect_step_refines it is the abstract one on dr_resp; anything else would be a panic the model predicts *)
+      let do_bad = List.exists2 (fun s d ->
+        if gun = "scenario" then shoot_step_do s d <> shoot_step s
+        else base_shoot_do base_c false d <> base_shoot base_c false s.si_resp) steps !dos in
       let shots =
-        if wire_bad then [ShotPanic []] else
+        if wire_bad || do_bad then [ShotPanic []] else
         if gun = "http" || gun = "connect" || h2gun then
           List.map (fun s -> base_shoot { bc_bound = true; bc_connect = None; bc_http2 = h2gun; bc_opts = opts } false s.si_resp) steps
         else List.init iters (fun _ -> scenario_shoot true steps) in
       let (samples, failed) = instance_run shots in
+      (* redirects followed to the target with a hop counter (every kind but the unchanged-URI one), largest chain among
+         the shots that are made: every step for the http guns, the executed ones of a scenario *)
+      let nexec = if gun = "scenario" then int_of_nat (executed steps) else n in
+      let counted_follows (d : do_result) =
+        let rec go = function
+          | a :: (_ :: _ as r) -> (let a = int_of_nat a in (if a < n && (let (_, _, _, _, _, _, _, c) = raw.(a) in c) then 1 else 0)) + go r
+          | _ -> 0 in go d.dr_trace in
+      let hops = if refused || (failed && h2gun) then 0 else
+        List.fold_left max 0 (List.mapi (fun i d -> if i < nexec then counted_follows d else 0) !dos) in
       let show_s (s : sample) = Printf.sprintf "%d:%s" (int_of_z s.sm_code) (field_of_bool s.sm_err) in
       let ss = List.sort compare (List.map show_s samples) in
-      let p = Printf.sprintf "run=%s timely=1 n=%d%s" (if failed then "panic" else "ok") (List.length ss) (String.concat "" (List.map (fun x -> " " ^ x) ss)) in
+      let p = if !never_back then "run=hang timely=1 hops=runaway n=0" else
+        Printf.sprintf "run=%s timely=1 hops=%d n=%d%s" (if failed then "panic" else "ok") hops (List.length ss) (String.concat "" (List.map (fun x -> " " ^ x) ss)) in
       (* specification: run ok; one sample per attempted request; clean exchange -> S<status>, anything else -> F *)
       let cls (s : string) = (match String.split_on_char ':' s with [code; "0"] -> "S" ^ code | _ -> "F") in
       let want = List.sort compare (List.map cls ss) in
       let v =
         (match split_blank obs with
-         | run :: timely :: cnt :: rest ->
+         | run :: timely :: hops_o :: cnt :: rest ->
              (* the documented fatal condition: http2 gun and a target that does not negotiate HTTP/2 (and is reachable) *)
              if failed && h2gun && not target_h2 then (if run = "run=panic" then "ok" else "BAD:documented-fatal-condition-not-fatal")
              else if run = "run=crashed" then "BAD:process-crashed"
@@ -212,6 +261,8 @@ let predict (c : string) (obs : string) : string * string * bool =
                  else "") "" (List.combine !pp_codes steps) in
                "BAD:run-aborted-by-panic:" ^ (if culprit = "" then "unexplained" else culprit)
              end
+             (* a chain of redirects the target never ends: the shot must come back all the same *)
+             else if hops_o = "hops=runaway" then "BAD:redirect-chain-followed-without-end"
              else if run <> "run=ok" then "BAD:run-" ^ (String.sub run 4 (String.length run - 4))
              else if failed then "ok" (* the model predicts a panic the implementation did not have *)
              else if timely <> "timely=1" then "BAD:configured-timeout-not-honoured"
